@@ -10,7 +10,8 @@ RULE = ("Hypothesis-generated actor scripts over one memory object stream (max_b
 ASSUMPTIONS = [
     "ordering rules in interval form ([call cycle, return cycle]); FIFO of blocked parties: an earlier live waiter must "
     "return within 2 cycles of a later one being served",
-    "no handle is closed in C12 programs (closing is C13); the harness drains the buffer at the end",
+    "in a quarter of the programs clones are closed / made along the way (also with an own operation in flight) while "
+    "a spare receive clone stays open, so the receiving side is never fully closed; the harness drains the buffer at the end",
 ]
 TECHNIQUE = "Hypothesis-generated actor programs; conservation (multiset) + interval-order + bound invariants over the observed history"
 LEVEL_TEXT = ("Every accepted item is received exactly once or is still buffered at the end; nothing duplicated or "
@@ -24,7 +25,17 @@ def budget(tier):
     return 20000 if tier == "quick" else 400000
 
 
-_strategy = composite(lambda g: gen_case(g, closing=False))
+def _gen(g):
+    if g.chance(25):
+        # clones are closed and made along the way, but a spare receive clone stays open to the end, so that the
+        # receiving side is never fully closed and every accepted item must still be accounted for
+        case = gen_case(g, closing=True)
+        case["keep_r"] = True
+        return case
+    return gen_case(g, closing=False)
+
+
+_strategy = composite(_gen)
 
 
 def strategy(tier):
